@@ -102,12 +102,17 @@ def render_stmt(rng, st, files=None):
 
 
 def render_file(rng, stmts):
-    return '\n'.join(render_stmt(rng, s) for s in stmts) + '\n'
+    out = ''
+    for s in stmts:
+        # 'join_next': the next statement follows on the same source line (a string directive followed by a statement)
+        out += render_stmt(rng, s) + (rng.choice([' ', '  ', '\t']) if s.get('join_next') else '\n')
+    return out
 
 
 def model_stmt(st):
     st = dict(st)
     st.pop('text', None)
+    st.pop('join_next', None)
     if st['k'] == 'instr':
         st['opcode'] = INSTRS[st['mn']][0]
     if st['k'] in ('nib', 'macro'):
